@@ -84,11 +84,14 @@ def histories(draw, reps, concrete_start=True):
             gens.append(["raw", draw(st.sampled_from(["mutate", "crossover"])), draw(st.integers(0, 7)), draw(st.integers(0, 7))])
         else:
             gens.append(["step", draw(step_strategy())])
+    decider = draw(st.sampled_from(["maxdepth", "pigrow"]))
+    # (PI-grow fills the whole depth: one level less keeps populations of such trees affordable)
+    extras = ([1, 2, 3, 4] if decider == "maxdepth" else [1, 2, 3]) if concrete_start != "always" else [1, 1, 2]
     return {
         "spec": spec,
         "rep": rep,
-        "decider": draw(st.sampled_from(["maxdepth", "pigrow"])),
-        "depth_extra": draw(st.sampled_from([1, 2, 3, 4] if concrete_start != "always" else [1, 1, 2])),
+        "decider": decider,
+        "depth_extra": draw(st.sampled_from(extras)),
         "seed": draw(st.integers(0, 2**31)),
         "gene_length": draw(st.sampled_from([8, 64, 256])),
         "ops": [],
@@ -157,7 +160,15 @@ class Histories(Facet):
             return good
 
         try:
-            pop = prepare([Individual(w.rep.create_genotype(w.random), w.rep) for _ in range(case["popsize"])])
+            first = [Individual(w.rep.create_genotype(w.random), w.rep) for _ in range(case["popsize"])]
+            if rep == "tree" and case["seed"] % 3 == 0:
+                # some individuals hold programs the user wrote out by hand (injected seeds): the same
+                # structure, built through the constructors, carrying nothing the library attached
+                from vk.refmodel import handmade_copy
+
+                first = [Individual(handmade_copy(i.genotype, info), w.rep) if k % 2 == 0 else i for k, i in enumerate(first)]
+                rec.label("with-hand-written-programs")
+            pop = prepare(first)
         except Exception:  # noqa: BLE001
             rec.discard()
             return
